@@ -206,24 +206,24 @@ theorem epoch_safe (C : Covers) (ty : String) (n : Except Exc Int) (hn : Safe n)
   · exact Safe.bind hn (fun k => Safe.bind (fromTimestamp_safe C k) (fun dt => Safe.ok _))
   · exact Safe.ok _
 
-theorem strBody_safe (C : Covers) (s : List Char) : Safe (strBody s) := by
+theorem strBody_safe (C : Covers) (R : Refines) (s : List Char) : Safe (strBody s) := by
   unfold strBody
   split
   · exact epoch_safe C _ _ (pyInt_safe C s)
-  · exact textPath_safe C s
+  · rw [R.text]; exact textPath_safe C s
 
-theorem body_safe (C : Covers) (i : Input) : Safe (body i) := by
+theorem body_safe (C : Covers) (R : Refines) (i : Input) : Safe (body i) := by
   cases i with
   | int n => exact epoch_safe C _ _ (Safe.ok _)
   | npInt n => exact epoch_safe C _ _ (Safe.ok _)
   | float b => exact epoch_safe C _ _ (intOfFloat_safe C b)
   | npFloat b => exact epoch_safe C _ _ (intOfFloat_safe C b)
-  | str s => exact strBody_safe C s
+  | str s => exact strBody_safe C R s
   | bytes b =>
     simp only [body]
     split
     · exact (safe_unicodeDecodeError C)
-    · exact strBody_safe C _
+    · exact strBody_safe C R _
   | date y m d => exact Safe.ok _
   | datetime dt => exact Safe.ok _
   | other => exact Safe.ok _
